@@ -12,6 +12,8 @@ import ttconv.time_code as T
 DISCHARGED_BY = {
   "ClockTime.from_seconds": ["ClockTime.from_seconds.fields/P7-fields-in-range", "ClockTime.from_seconds.total/P7-total-ms==round-half-even(1000t)",
                              "ClockTime.from_seconds.negative/P7-negative-rejected"],
+  "SmpteTimeCode.add_frames": ["add_frames@30/P4-label-after-add-valid", "add_frames@30/P4-count'==count+k",
+                               "add_frames@30000/1001/P4-label-after-add-valid", "add_frames@30000/1001/P4-count'==count+k"],
 }
 
 
@@ -40,3 +42,33 @@ def clocktime_from_seconds(real):
 
 
 CLOCKTIME = (T.ClockTime, "from_seconds", clocktime_from_seconds, True)
+
+
+def smpte_add_frames(real):
+  """contract of ttconv.time_code.SmpteTimeCode.add_frames (rates 30 and 30000/1001; the statement C12 proves as P4 for the real body):
+       requires  the label is valid at its rate, hours < 2**30, |nb_frames| < 2**20, count(label) + nb_frames >= 0
+       ensures   the label is valid, count(label') == count(label) + nb_frames, the frame rate is unchanged
+       modifies  only _hours, _minutes, _seconds, _frames of self
+     the requires clause is an OBLIGATION at every call site (`add_frames.requires`); concrete labels run the real body"""
+  from specs import smpte
+
+  def stub(self, nb_frames=1):
+    old = (self._hours, self._minutes, self._seconds, self._frames)
+    if not any(isinstance(x, core.Proxy) for x in old + (nb_frames,)):
+      return real(self, nb_frames)
+    rate = self._frame_rate
+    if rate not in (Fraction(30), Fraction(30000, 1001)):
+      return real(self, nb_frames)
+    modular.note_use("SmpteTimeCode.add_frames")
+    before = smpte.count(*old, rate)
+    core.prove(smpte.valid(*old, rate) & (old[0] < 2 ** 30) & (nb_frames > -2 ** 20) & (nb_frames < 2 ** 20) & (before + nb_frames >= 0),
+               "add_frames.requires", kind="pre")
+    h, m, s, f = (modular.fresh_int("tc_" + n) for n in ("h", "m", "s", "f"))
+    assume(smpte.valid(h, m, s, f, rate))
+    assume(smpte.count(h, m, s, f, rate) == before + nb_frames)
+    self._hours, self._minutes, self._seconds, self._frames = h, m, s, f
+    return None
+  return stub
+
+
+ADD_FRAMES = (T.SmpteTimeCode, "add_frames", smpte_add_frames, False)
